@@ -1,18 +1,28 @@
-"""Draw n cases from a Hypothesis strategy, deterministically by seed (generate phase only).
-Used by compile-based checks, which run their cases in parallel outside of the Hypothesis loop."""
+"""Draw n *distinct* cases from a Hypothesis strategy, deterministically by seed (generate phase
+only).  Used by compile-based checks, which run their cases in parallel outside of the Hypothesis
+loop.  Hypothesis likes to produce very simple examples and repeats; since every compiled case costs
+seconds we oversample four-fold, drop duplicates and keep a seed-determined subset."""
+import hashlib
+import json
+
 import hypothesis
 from hypothesis import HealthCheck, Phase, given, settings
 
 
-def draw_cases(strategy, n, seed):
-    out = []
+def _key(case):
+    return hashlib.sha1(json.dumps(case, sort_keys=True, default=repr).encode()).hexdigest()
+
+
+def draw_cases(strategy, n, seed, oversample=4):
+    seen = {}
 
     @hypothesis.seed(seed)
-    @settings(max_examples=n, database=None, deadline=None, phases=[Phase.generate],
-              suppress_health_check=list(HealthCheck), derandomize=False)
+    @settings(max_examples=max(n * oversample, n + 8), database=None, deadline=None,
+              phases=[Phase.generate], suppress_health_check=list(HealthCheck), derandomize=False)
     @given(strategy)
     def collect(case):
-        out.append(case)
+        seen.setdefault(_key(case), case)
 
     collect()
-    return out[:n]
+    keys = sorted(seen, key=lambda k: hashlib.sha1(f'{seed}:{k}'.encode()).hexdigest())
+    return [seen[k] for k in keys[:n]]
